@@ -31,5 +31,20 @@ if 'SEEDED-TABLE-PLACEHOLDER' in s:
 else:
     s = re.sub(r'<!-- SEEDED-TABLE-BEGIN -->.*?<!-- SEEDED-TABLE-END -->',
                lambda _m: '<!-- SEEDED-TABLE-BEGIN -->\n' + table + '\n<!-- SEEDED-TABLE-END -->', s, flags=re.S)
+# mutant counts of section 9.1
+import collections
+import sys
+sys.path.insert(0, os.path.join(VERIF, 'selftest'))
+from mutants import MUTANTS, BENIGN  # noqa
+c = collections.Counter()
+for m in MUTANTS:
+    for pr in m['expect']:
+        c[pr] += 1
+counts = ('%d mutants (each an exact-string edit that still compiles; %d property/mutant\nruns) and %d benign '
+          'refactors (%d runs). Per property: %s.' % (
+              len(MUTANTS), sum(c.values()), len(BENIGN), sum(len(b['props']) for b in BENIGN),
+              ', '.join('%s %d' % (k, c[k]) for k in sorted(c))))
+s = re.sub(r'<!-- MUTANT-COUNTS-BEGIN -->.*?<!-- MUTANT-COUNTS-END -->',
+           lambda _m: '<!-- MUTANT-COUNTS-BEGIN -->\n' + counts + '\n<!-- MUTANT-COUNTS-END -->', s, flags=re.S)
 open(p, 'w').write(s)
-print(len(rows), 'rows')
+print(len(rows), 'rows;', len(MUTANTS), 'mutants')
